@@ -299,7 +299,7 @@ let eval_case emit (c : ecfg) (prog : int list) (answers : answer list) =
                     c_cap_stack = (if c.small then Some (nat_of_int 3) else None);
                     c_cap_expr = (if c.small then Some (nat_of_int 1) else None);
                     c_cap_res = (if c.small then Some (nat_of_int 2) else None); c_canon = None } in
-  let fuel = nat_of_int (match c.maxit with Some m -> m + 2 | None -> 4000) in
+  let fuel = nat_of_int (match c.maxit with Some m -> min (m + 2) 5000 | None -> 4000) in
   let case = Printf.sprintf "c07.eval %s %s %s %s %s %s%s" (enc_toks c.e)
       (sopt string_of_int c.maxit) (sopt Z.to_string c.init) (sopt Z.to_string c.obj) (if c.small then "s" else "h")
       (hex_of_ints prog) (String.concat "" (List.map (fun a -> " " ^ show_ans a) answers)) in
@@ -504,6 +504,14 @@ let () =
         done
       done;
       let has_branch_byte l = List.exists (fun b -> b = 0x28 || b = 0x2f) l in
+      for _ = 1 to n / 20 + 20 do
+        let e = pick r (Array.of_list main_encs) in
+        let prog = rand_prog r e 1 (1 + rand_int r 6) in
+        let answers = List.init (rand_int r 4) (fun _ -> rand_answer r e 1) in
+        if not (has_branch_byte prog || List.exists (fun (a : answer) -> has_branch_byte (List.map int_of_byte a.a_bytes)) answers) then
+          List.iter (fun lim -> eval_case emit { e; maxit = Some lim; init = None; obj = None; small = false } prog answers)
+            [4294967295; 4294967294; 65536]
+      done;
       for _ = 1 to n / 4 do
         let e = pick r (Array.of_list main_encs) in
         let prog = rand_prog r e 2 (1 + rand_int r 8) in
@@ -566,33 +574,26 @@ let spec_eval_witness emit (e : encd) (p : int list) (p' : int list) =
   both emit case (fun dbg -> show_trace ~canon_bits:(8 * e.asz) (run the_fops (nat_of_int 42) dbg cfg (bytes_of_ints p') []))
 
 (* evaluator level: gimli (generic values printed modulo the address size) against the NORMALISED machine
-   (model with c_canon = Some (8*asz): every generic value reduced when pushed).  Class k: the program or an
-   answer expression contains a shift opcode byte and the faithful model differs from the normalised machine. *)
-let has_shift_byte l = List.exists (fun b -> b = 0x24 || b = 0x25 || b = 0x26) l
+   (model with c_canon = Some (8*asz): every generic value reduced when pushed). *)
 let spec_eval_case emit (c : ecfg) (prog : int list) (answers : answer list) =
   if c.e.asz >= 1 && c.e.asz <= 8 then begin
     let bits = 8 * c.e.asz in
-    let mk canon : cfg = { c_enc = enc_of c.e; c_obj = Option.map n_of_z c.obj; c_max = Option.map n_of_int c.maxit;
+    let cfg : cfg = { c_enc = enc_of c.e; c_obj = Option.map n_of_z c.obj; c_max = Option.map n_of_int c.maxit;
                       c_init = Option.map n_of_z c.init;
                       c_cap_stack = (if c.small then Some (nat_of_int 3) else None);
                       c_cap_expr = (if c.small then Some (nat_of_int 1) else None);
                       c_cap_res = (if c.small then Some (nat_of_int 2) else None);
-                      c_canon = (if canon then Some (n_of_int bits) else None) } in
-    let fuel = nat_of_int (match c.maxit with Some m -> m + 2 | None -> 4000) in
+                      c_canon = Some (n_of_int bits) } in
+    let fuel = nat_of_int (match c.maxit with Some m -> min (m + 2) 5000 | None -> 4000) in
     let bs = bytes_of_ints prog in
-    let spec dbg = show_trace ~canon_bits:bits (run the_fops fuel dbg (mk true) bs answers) in
-    let faithful dbg = show_trace ~canon_bits:bits (run the_fops fuel dbg (mk false) bs answers) in
-    let shifty = has_shift_byte prog || List.exists (fun (a : answer) -> has_shift_byte (List.map int_of_byte a.a_bytes)) answers in
-    let sd = spec true and sr = spec false in
-    let cls = if shifty && (sd <> faithful true || sr <> faithful false) then "k" else "n" in
-    let case = Printf.sprintf "c07.spec e %s %s %s %s %s %s %s%s" cls (enc_toks c.e)
+    let case = Printf.sprintf "c07.spec e n %s %s %s %s %s %s%s" (enc_toks c.e)
         (sopt string_of_int c.maxit) (sopt Z.to_string c.init) (sopt Z.to_string c.obj) (if c.small then "s" else "h")
         (hex_of_ints prog) (String.concat "" (List.map (fun a -> " " ^ show_ans a) answers)) in
-    emit case sd sr
+    both emit case (fun dbg -> show_trace ~canon_bits:bits (run the_fops fuel dbg cfg bs answers))
   end
 
 let () =
-  register "c07.spec" ~doc:"gimli's Value operations (results reduced modulo the address size) against the specification algebra of Spec/StackSpec.v; class k = generic shift counts beyond the address size (known finding)"
+  register "c07.spec" ~doc:"gimli's Value operations (results reduced modulo the address size) against the specification algebra of Spec/StackSpec.v; class k = generic shift counts beyond the address size (repaired in gimli 0858756)"
     (fun ~seed ~n emit ->
       let thorough = n >= 400000 in
       let spec_types = if thorough then all_types else [| TGeneric; TI8; TU16; TI32; TU64; TF32; TF64 |] in
